@@ -82,6 +82,23 @@ fn op_str(o: &Op) -> String {
         Op::Flush => "flush".into(),
     }
 }
+/// focused alphabet on the two colliding names (A, B) plus the fresh name D: deep sequences stay cheap
+fn alphabet_collide() -> Vec<Op> {
+    let mut v = vec![];
+    for n in [0usize, 1] {
+        for c in [0usize, 1] {
+            for p in [0usize, 3] {
+                v.push(Op::Add(n, c, p));
+            }
+        }
+        v.push(Op::Remove(n));
+    }
+    for (a, b) in [(0, 3), (1, 3), (3, 0), (3, 1)] {
+        v.push(Op::Rename(a, b));
+    }
+    v.push(Op::Flush);
+    v
+}
 fn alphabet(tier: Tier) -> Vec<Op> {
     let mut v = vec![];
     let (cs, ps, add_names): (Vec<usize>, Vec<usize>, Vec<usize>) = match tier {
@@ -221,7 +238,7 @@ impl Epoch {
                 unjudged: s["unjudged"].as_array().unwrap().iter().map(|x| x.as_str().unwrap().to_string()).collect(),
             })
             .collect();
-        let alpha = alphabet(tier);
+        let alpha = if v["alphabet"].as_str() == Some("collide") { alphabet_collide() } else { alphabet(tier) };
         let k = alpha.len() as u64;
         let mut n = 0u64;
         for l in 1..=max_len {
@@ -587,14 +604,18 @@ fn build(name: &str, arg: &str, tier: Tier) -> Box<dyn Space> {
     }
 }
 
-fn write_frontier(scratch: &Scratch, n: usize, states: &[StateRef], max_len: usize) -> String {
+fn write_frontier_kind(scratch: &Scratch, n: usize, states: &[StateRef], max_len: usize, kind: &str) -> String {
     let p = scratch.path(&format!("frontier{n}.json"));
-    let v = json!({"dir": scratch.0.to_string_lossy(), "max_len": max_len, "states": states.iter().map(|s| json!({
+    let v = json!({"dir": scratch.0.to_string_lossy(), "max_len": max_len, "alphabet": kind, "states": states.iter().map(|s| json!({
         "key": s.key, "label": s.label, "init": s.init, "listfile": s.listfile,
         "model": s.model.iter().map(|(k, v)| (k.clone(), json!(hex_enc(v)))).collect::<serde_json::Map<_, _>>(),
         "unjudged": s.unjudged.iter().collect::<Vec<_>>() })).collect::<Vec<_>>()});
     std::fs::write(&p, v.to_string()).unwrap();
     p.to_string_lossy().to_string()
+}
+
+fn write_frontier(scratch: &Scratch, n: usize, states: &[StateRef], max_len: usize) -> String {
+    write_frontier_kind(scratch, n, states, max_len, "full")
 }
 
 fn main() {
@@ -613,8 +634,51 @@ fn main() {
     // scripted long histories from every initial state
     let f0 = write_frontier(&scratch, 0, &frontier, 1);
     c.run_space("scripts", &f0);
+    // focused search: initial states that already hold the two colliding names (B stored behind A in the
+    // probe chain), every sequence of length <= 3 (quick) / 4 (thorough) over the 15-event collide alphabet
+    {
+        let nm = names();
+        let mut cstates = vec![];
+        for (label, ver, lf) in [("builder V1 listfile=true with A,B present", FormatVersion::V1, true), ("builder V2 listfile=false with A,B present", FormatVersion::V2, false)] {
+            let p = scratch.path("cinit.mpq");
+            let _ = std::fs::remove_file(&p);
+            ArchiveBuilder::new()
+                .version(ver)
+                .block_size(3)
+                .listfile_option(if lf { ListfileOption::Generate } else { ListfileOption::None })
+                .add_file_data(contents(9), W_NAME)
+                .add_file_data(contents(1), &nm[0])
+                .add_file_data(contents(0), &nm[1])
+                .build(&p)
+                .expect("collide initial archive");
+            let bytes = std::fs::read(&p).unwrap();
+            let key = canon_key(&bytes);
+            std::fs::write(scratch.path(&format!("{key}.mpq")), &bytes).unwrap();
+            let mut m = Model::new();
+            m.insert(fold(W_NAME), contents(9));
+            m.insert(fold(&nm[0]), contents(1));
+            m.insert(fold(&nm[1]), contents(0));
+            cstates.push(StateRef { key, label: String::new(), model: m, unjudged: BTreeSet::new(), listfile: lf, init: label.to_string() });
+        }
+        {
+            // independently written archive, 8-slot table: W, A, B + listfile
+            let files = vec![WFile::plain(W_NAME, &contents(9)), WFile { method: mpqref::M_ZLIB, ..WFile::plain(&nm[0], &contents(1)) }, WFile::plain(&nm[1], &contents(0))];
+            let opt = WOptions { version: 0, shift: 3, hash_size: 8, listfile: true, userdata_prefix: 0, deleted_slots: vec![] };
+            let bytes = mpqref::write(&files, &opt).unwrap();
+            let key = canon_key(&bytes);
+            std::fs::write(scratch.path(&format!("{key}.mpq")), &bytes).unwrap();
+            let mut m = Model::new();
+            m.insert(fold(W_NAME), contents(9));
+            m.insert(fold(&nm[0]), contents(1));
+            m.insert(fold(&nm[1]), contents(0));
+            cstates.push(StateRef { key, label: String::new(), model: m, unjudged: BTreeSet::new(), listfile: true, init: "reference-written V1 hash_size=8 with A,B present".to_string() });
+        }
+        let f = write_frontier_kind(&scratch, 90, &cstates, c.tier.pick(3, 4), "collide");
+        let p = c.run_space("epoch", &f);
+        eprintln!("C06 collide search: {} initial states, sequences of length <= {}, {} distinct successor states", cstates.len(), c.tier.pick(3, 4), p.iter().map(|x| x.1["key"].as_str().unwrap_or("").to_string()).collect::<std::collections::BTreeSet<_>>().len());
+    }
     // epochs: (max sequence length, cap on states expanded)
-    let plan: Vec<(usize, usize)> = c.tier.pick(vec![(2, usize::MAX), (1, 400)], vec![(2, usize::MAX), (2, 300), (1, 3000)]);
+    let plan: Vec<(usize, usize)> = c.tier.pick(vec![(2, usize::MAX), (2, 120), (1, 600)], vec![(2, usize::MAX), (2, 300), (1, 3000)]);
     let mut total_states = n_init as u64;
     let mut depth_ops = 0;
     let mut samples = vec![];
@@ -652,6 +716,14 @@ fn main() {
             }
             next.push(st);
         }
+        // expansion priority when a cap applies: states holding both colliding names first, then more names
+        // (deterministic; the sort is stable on the discovery order)
+        let nmx = names();
+        let (fa, fb) = (fold(&nmx[0]), fold(&nmx[1]));
+        next.sort_by_key(|s: &StateRef| {
+            let both = s.model.contains_key(&fa) as i32 + s.model.contains_key(&fb) as i32;
+            (-(both), -(s.model.len() as i32))
+        });
         total_states += next.len() as u64;
         eprintln!("C06 epoch {}: expanded {} states x sequences of length <= {}, {} new states", ei + 1, fr.len(), max_len, next.len());
         frontier = next;
